@@ -20,6 +20,7 @@ import (
 
 	"verif/internal/h"
 	"verif/internal/simeng"
+	"verif/internal/tlvwalk"
 )
 
 // ---- C15: a published object is retrieved byte-for-byte, newest version, completing once
@@ -391,6 +392,48 @@ func c15Transfer(c *h.Ctx, id string, r *rand.Rand) {
 		return
 	}
 	c.Sample(det())
+
+	// ---- removal after the packets have been served: "packets removed from a store are no longer
+	// served" also holds for packets this producer has just handed out. Control first: an exact-name
+	// Interest for segment 0 of the version just fetched is answered; then the application removes
+	// that version from its store and the same Interest (new nonce) must get no Data.
+	if r.Intn(2) == 0 {
+		base := append(objName.Clone(), enc.NewVersionComponent(newest))
+		seg0 := append(base.Clone(), enc.NewSegmentComponent(0))
+		ask := func(nonce byte, wait time.Duration) (bool, time.Duration) {
+			net.mu.Lock()
+			net.q = nil
+			net.mu.Unlock()
+			body := append(seg0.Bytes(), tlvwalk.TLV(0x0a, []byte{0xc1, 0x5a, 0, nonce})...)
+			_ = pf.Feed(tlvwalk.TLV(5, body))
+			t0 := time.Now()
+			for time.Since(t0) < wait {
+				net.mu.Lock()
+				for _, p := range net.q {
+					if !p.toProducer && p.name == "d:"+seg0.String() {
+						net.mu.Unlock()
+						return true, time.Since(t0)
+					}
+				}
+				net.mu.Unlock()
+				time.Sleep(100 * time.Microsecond)
+			}
+			return false, wait
+		}
+		answered, took := ask(1, 5*time.Second)
+		if !answered {
+			c.Count("served_again_control_unanswered", 1) // not this family's verdict
+			return
+		}
+		_ = st.store.Remove(base.Clone(), true)
+		if again, _ := ask(2, 20*time.Millisecond+5*took); again {
+			d := det()
+			d["segment"] = seg0.String()
+			c.Violation("C15:removed-packet-still-served:producer:"+storeKind, id, fmt.Sprintf("%s was removed from the producer's store (Remove returned) after it had been served; an exact-name Interest for it still got the Data", seg0), d)
+			return
+		}
+		c.Count("removed_after_serving_checks", 1)
+	}
 }
 
 // c15Stores: MemoryStore and BoltStore give the same answers after the same Produce/Remove history.
